@@ -78,6 +78,7 @@ pub fn dispatch(which: &str, v: &Value, case: &Value) -> Value {
         "c18_perm" => c18_perm(v),
         "c18_sep" => c18_sep(v),
         "c01_tok" => c01_tok(v),
+        "c01_star" => c01_star(v),
         "c01_l1c" => c01_l1c(v),
         "c01_scan" => c01_scan(v),
         "c04_prec" => c04_prec(v),
@@ -316,6 +317,30 @@ fn c04_prec(v: &Value) -> Value {
     let ok = res.matched == want_matched && res.important == imp && res.exception.is_some() == exception && res.filter.is_some() == blocking;
     json!({"reproduced": !ok, "got": {"matched": res.matched, "important": res.important, "exception": res.exception.is_some(), "filter": res.filter.is_some()},
            "want": {"matched": want_matched, "important": imp, "exception": exception, "filter": blocking}, "api": "Blocker::new + check_parameterised"})
+}
+/// wildcard pattern a*b: rule value with IS_REGEX and the real regex matcher; URL built from the counterexample
+fn c01_star(v: &Value) -> Value {
+    let a = sub(v, "ab", "al").to_ascii_lowercase();
+    let bpart = sub(v, "bb", "bl").to_ascii_lowercase();
+    let (la, ra) = (b(&v["la"]), b(&v["ra"]));
+    let f = format!("{}*{}", a, bpart);
+    let mut url = String::new();
+    if b(&v["has_pre"]) { url.push(u(&v["pre"]) as u8 as char); }
+    url.push_str(&a);
+    if b(&v["has_mid"]) { url.push(u(&v["mid"]) as u8 as char); }
+    url.push_str(&bpart);
+    if b(&v["has_post"]) { url.push(u(&v["post"]) as u8 as char); }
+    let url = url.to_ascii_lowercase();
+    let mut mask = NetworkFilterMask::DEFAULT_OPTIONS | NetworkFilterMask::IS_REGEX;
+    if la { mask |= NetworkFilterMask::IS_LEFT_ANCHOR; }
+    if ra { mask |= NetworkFilterMask::IS_RIGHT_ANCHOR; }
+    let nf = mk_filter(mask.bits(), FilterPart::Simple(f.clone()), None, None);
+    let req = mk_request(&url, "x.com", RequestType::Script, false, true, false, None);
+    let m = matches(&nf, &req);
+    let rt: Vec<u64> = req.get_tokens().clone();
+    let missing: Vec<u64> = nf.get_tokens().iter().flatten().filter(|t| !rt.contains(t)).cloned().collect();
+    let engine = blocker_of(vec![nf], false).check(&req, &ResourceStorage::default()).matched;
+    json!({"reproduced": m && !missing.is_empty(), "rule": format!("{}{}{}", if la {"|"} else {""}, f, if ra {"|"} else {""}), "url": url, "matcher_accepts": m, "rule_tokens_missing_from_request": missing.len(), "engine_matched": engine})
 }
 fn alnum(c: u8) -> bool {
     c.is_ascii_alphanumeric() || c == b'%'
